@@ -262,3 +262,23 @@ def simulate(module, cfg, num, depth, seed=0, timeout=600, extra=None):
         return res, behs
     finally:
         shutil.rmtree(wd, ignore_errors=True)
+
+
+def dump_states(module, cfg, workers=16, timeout=900, extra=None):
+    """Model check and return every reachable state as a dict (plain -dump)."""
+    wd = prepare(extra)
+    try:
+        st = os.path.join(wd, 'states')
+        res, _ = run(module, cfg, workdir=wd, workers=workers, timeout=timeout, args=['-dump', st])
+        states = []
+        with open(st + '.dump') as fh:
+            txt = fh.read()
+        for blk in re.split(r'\n\n(?=State \d+:)', txt):
+            blk = blk.strip()
+            if not blk:
+                continue
+            nl = blk.find('\n')
+            states.append(tlaval.parse_state(blk[nl + 1:]))
+        return res, states
+    finally:
+        shutil.rmtree(wd, ignore_errors=True)
